@@ -180,7 +180,7 @@ impl<'a> Tr<'a> {
                     }
                     None => (Vec::new(), "()".to_string()),
                 };
-                let mut t = term;
+                let mut t = if self.mut_self { format!("({}, self)", term) } else { term };
                 for _ in 0..self.frames.len() {
                     t = format!("(.out {})", t);
                 }
@@ -619,8 +619,9 @@ impl<'a> Tr<'a> {
         }
         if let Expr::Path(pp) = e {
             if pp.path.segments.len() == 1 {
-                if let Some((term, ty)) = self.ptr_alias.get(&pp.path.segments[0].ident.to_string()).cloned() {
-                    return Ok(Some((Out::pure(term, ty), None)));
+                if let Some((term, ty, off)) = self.ptr_alias.get(&pp.path.segments[0].ident.to_string()).cloned() {
+                    let offo = off.map(|o| Out::pure(o, Ty::Int(IntTy::USIZE)));
+                    return Ok(Some((Out::pure(term, ty), offo)));
                 }
             }
         }
@@ -629,6 +630,9 @@ impl<'a> Tr<'a> {
             if name == "as_ptr" || name == "as_mut_ptr" {
                 let s = self.expr(&m.receiver, None)?;
                 return Ok(Some((s, None)));
+            }
+            if name == "cast" && m.args.is_empty() {
+                return self.ptr_pattern(&m.receiver);
             }
             if name == "offset" || name == "add" {
                 if let Some((s, None)) = self.ptr_pattern(&m.receiver)? {
@@ -722,6 +726,22 @@ impl<'a> Tr<'a> {
             if let Some((s, off)) = self.ptr_pattern(&c.args[0])? {
                 let n = self.expr(&c.args[1], Some(&Ty::Int(IntTy::USIZE)))?;
                 let t = self.fresh("t");
+                // an array of MaybeUninit<T> read as T: every slot of the range must be initialised
+                if let Ty::Slice(e) = self.sub.shallow(&s.ty) {
+                    if let Ty::Option(inner) = self.sub.shallow(&e) {
+                        let mut pre = s.pre;
+                        let offt = match off {
+                            Some(o) => {
+                                pre.extend(o.pre);
+                                o.term
+                            }
+                            None => "0".to_string(),
+                        };
+                        pre.extend(n.pre);
+                        pre.push(format!("let {} ← Rs.rawPartsInit {} {} {}", t, s.term, offt, n.term));
+                        return Ok(Out { pre, term: t, ty: Ty::Slice(inner), diverges: false });
+                    }
+                }
                 let mut pre = s.pre;
                 let offt = match off {
                     Some(o) => {
@@ -743,6 +763,35 @@ impl<'a> Tr<'a> {
         if last == "from_utf8_unchecked" {
             let a = self.expr(&c.args[0], None)?;
             return Ok(Out { pre: a.pre, term: a.term, ty: Ty::Str, diverges: false });
+        }
+        // MaybeUninit / ManuallyDrop plumbing
+        if last == "uninit_array" && c.args.is_empty() {
+            if self.const_generics.len() != 1 {
+                return self.err(c.span(), "uninit_array() outside a function with exactly one const generic");
+            }
+            let n = lean_ident(&self.const_generics[0]);
+            let t = self.sub.fresh();
+            return Ok(Out::pure(format!("(Rs.uninitArray {})", n), Ty::Slice(Box::new(Ty::Option(Box::new(t))))));
+        }
+        if last == "new" && prev.as_deref() == Some("MaybeUninit") && c.args.len() == 1 {
+            let a = self.expr(&c.args[0], None)?;
+            return Ok(Out { pre: a.pre, term: format!("(some {})", a.term), ty: Ty::Option(Box::new(a.ty)), diverges: false });
+        }
+        if (last == "new" || last == "into_inner") && prev.as_deref() == Some("ManuallyDrop") && c.args.len() == 1 {
+            return self.expr(&c.args[0], expect);
+        }
+        if last == "forget" && c.args.len() == 1 {
+            let a = self.expr(&c.args[0], None)?;
+            return Ok(Out { pre: a.pre, term: "()".into(), ty: Ty::Unit, diverges: false });
+        }
+        if last == "array_into_md" && c.args.len() == 1 {
+            // the Transmuter union turning `[T; N]` into `[MaybeUninit<T>; N]`: every slot initialised
+            let a = self.expr(&c.args[0], None)?;
+            let et = match self.sub.shallow(&a.ty) {
+                Ty::Slice(e) => *e,
+                other => return self.err(c.span(), &format!("array_into_md of {}", other)),
+            };
+            return Ok(Out { pre: a.pre, term: format!("({}.map some)", a.term), ty: Ty::Slice(Box::new(Ty::Option(Box::new(et)))), diverges: false });
         }
         if last == "from_bytes_with_nul_unchecked" {
             let a = self.expr(&c.args[0], Some(&Ty::Slice(Box::new(Ty::Int(IntTy::U8)))))?;
@@ -943,11 +992,50 @@ impl<'a> Tr<'a> {
                 }
             }
         }
+        // `(&raw mut this).cast::<[T; N]>().read()` on a repr(C) struct whose first field is the MaybeUninit array
+        if name == "read" && m.args.is_empty() {
+            if let Expr::MethodCall(castm) = peel(&m.receiver) {
+                if castm.method == "cast" {
+                    if let Expr::RawAddr(ra) = peel(&castm.receiver) {
+                        let this = self.expr(&ra.expr, None)?;
+                        if let Ty::Adt(adt) = self.sub.shallow(&this.ty) {
+                            let (fname, fty) = self.field_of(&adt, &syn::Member::Unnamed(syn::Index { index: 0, span: m.span() }), m.span()).or_else(|_| {
+                                // named first field
+                                let st = self.idx.find_struct(&adt, &self.cur.module).cloned();
+                                match st.and_then(|s| s.fields.iter().next().and_then(|f| f.ident.clone())) {
+                                    Some(id) => self.field_of(&adt, &syn::Member::Named(id), m.span()),
+                                    None => Err("no first field".to_string()),
+                                }
+                            })?;
+                            if let Ty::Slice(e) = self.sub.shallow(&fty) {
+                                if let Ty::Option(inner) = self.sub.shallow(&e) {
+                                    if self.const_generics.len() == 1 {
+                                        let t = self.fresh("t");
+                                        let mut pre = this.pre;
+                                        pre.push(format!("let {} ← Rs.assumeInitArray {}.{} {}", t, this.term, fname, lean_ident(&self.const_generics[0])));
+                                        return Ok(Out { pre, term: t, ty: Ty::Slice(inner), diverges: false });
+                                    }
+                                }
+                            }
+                        }
+                        return self.err(m.span(), "unrecognised whole-struct read");
+                    }
+                }
+            }
+        }
         let recv = self.expr(&m.receiver, None)?;
         if recv.diverges {
             return Ok(recv);
         }
         let rt = self.sub.shallow(&recv.ty);
+        if name == "assume_init_read" && m.args.is_empty() {
+            if let Ty::Option(inner) = &rt {
+                let t = self.fresh("t");
+                let mut pre = recv.pre;
+                pre.push(format!("let {} ← Rs.assumeInitRead {}", t, recv.term));
+                return Ok(Out { pre, term: t, ty: (**inner).clone(), diverges: false });
+            }
+        }
         let usize_t = Ty::Int(IntTy::USIZE);
         // slices / strings
         if matches!(rt, Ty::Slice(_) | Ty::Str) {
